@@ -28,6 +28,8 @@ type trAlias struct {
 	recvObj  types.Object
 	field    string // field of the container that is the map
 	key      string // Lean name of the key value
+	tree     bool     // trans_tree.go: the alias points to the node of the tree `root` at the path `key`
+	root     ast.Expr // the expression the tree hangs on (a variable or a field path)
 }
 
 // aliasRet: the method returns a pointer into the map `recv.<field>` at key `param <keyParam>`
@@ -187,6 +189,13 @@ func (c *trCtx) writeBack(lhs ast.Expr, k trK) trK {
 	al := c.aliases[o]
 	if al == nil {
 		return k
+	}
+	if al.tree {
+		return func() trLines {
+			name, ty, term := c.storeTerm(al.root, "(MNode.setAt "+c.expr(al.root)+" "+al.key+" "+c.names[o]+")", lhs.Pos())
+			pre := c.takePre()
+			return trWrapPre(pre, trLet(name, ty, trOne(term), k()))
+		}
 	}
 	return func() trLines {
 		rn := c.names[al.recvObj]
